@@ -4,6 +4,7 @@ use rspirv::binary::{DecodeError, Decoder};
 
 pub const BUF: usize = 12;
 pub const BUF_SMALL: usize = 6;
+pub const BUF_MID: usize = 8;
 
 /// raw layout: [len, offset, limit_tag, limit(8 bytes LE), arg, buf...]
 pub struct St<'a> {
